@@ -2,6 +2,7 @@ package checks
 
 import (
 	"fmt"
+	"hash/fnv"
 
 	"github.com/hyperjumptech/grule-rule-engine/builder"
 	"github.com/hyperjumptech/grule-rule-engine/pkg"
@@ -48,10 +49,18 @@ func copyRule(r *grl.Rule, name string) *grl.Rule {
 	return &n
 }
 
-func historyVariants(c *Case, b *hx.Built, prog *hx.Program, mk func() *ref.World) []histVariant {
+func historyVariants(c *Case, b *hx.Built, prog *hx.Program, mk func() *ref.World, light bool) []histVariant {
 	var out []histVariant
 	if len(c.Rules) < 2 {
 		return nil
+	}
+	// quick tier: the replacement / blueprint-removal histories (4-6) run for a fixed third of the programs (by a hash
+	// of the case id); the thorough tier runs them for all
+	later := true
+	if light {
+		h := fnv.New32a()
+		h.Write([]byte(c.ID))
+		later = h.Sum32()%3 == 0
 	}
 	ch := *c
 	ch.InHistory = true
@@ -115,6 +124,9 @@ func historyVariants(c *Case, b *hx.Built, prog *hx.Program, mk func() *ref.Worl
 				}
 			}
 		}
+	}
+	if !later {
+		return out
 	}
 	// 4. a rule replaced by an identical one in the library (removed, then built again under the same name), then
 	// the instance; for the first and the last rule
